@@ -103,6 +103,13 @@ func TestVerifC01(t *testing.T) {
 
 	check := func(wd *c01World, kind, detail string, R *party, g *protocoltypes.Group, data []byte, honest *openResult, mustFail bool) {
 		res := R.open(g, data)
+		// a log entry is read more than once (queue retries, listings): the verdict must not change on a re-read
+		for again := 0; again < 2 && !res.ok; again++ {
+			if r2 := R.open(g, data); r2.ok {
+				res = r2
+				kind += "-on-reread"
+			}
+		}
 		outcome := "rejected"
 		if res.ok {
 			outcome = "opened-identical"
